@@ -51,6 +51,11 @@ type C18Origin struct {
 	Root  ssa.Instruction
 	Const bool // nil constant
 	Pos   token.Pos
+	// Self: the value is the component pointer itself (the receiver, possibly captured by a function
+	// literal or handed to an in-package helper), not memory loaded from it. A field selected from
+	// a Self value is that field of the component's state.
+	Self  bool
+	selfT types.Type
 }
 
 // C18Engine holds the indexes shared by all queries.
@@ -193,6 +198,7 @@ type c18Walk struct {
 	seen    map[ssa.Value]bool
 	seenA   map[*ssa.Alloc]bool
 	seenR   map[string]bool
+	inFA    map[ssa.Value]bool // field selections being resolved (cycle guard shared by sub-walks)
 	out     []C18Origin
 }
 
@@ -265,7 +271,7 @@ func (w *c18Walk) val(v ssa.Value, a c18Anchor) {
 			w.add(C18State, FieldKey(x.X.Type(), x.Field), x, x.Pos(), a)
 			return
 		}
-		w.ptr(x.X, a)
+		w.selectFrom(x, x.X, x.Field, a, false)
 	case *ssa.IndexAddr:
 		w.ptr(x.X, a)
 	case *ssa.Index:
@@ -275,7 +281,11 @@ func (w *c18Walk) val(v ssa.Value, a c18Anchor) {
 	case *ssa.UnOp:
 		switch x.Op {
 		case token.MUL:
-			w.load(x.X, a)
+			if al, ok := x.X.(*ssa.Alloc); ok && c18PlainLocal(al) {
+				w.reaching(al, x, a)
+			} else {
+				w.load(x.X, a)
+			}
 		case token.ARROW:
 			w.recv(x.X, a)
 		default:
@@ -370,7 +380,7 @@ func (w *c18Walk) load(p ssa.Value, a c18Anchor) {
 			w.add(C18State, FieldKey(x.X.Type(), x.Field), x, x.Pos(), a)
 			return
 		}
-		w.load(x.X, a)
+		w.selectFrom(x, x.X, x.Field, a, true)
 	case *ssa.IndexAddr:
 		if _, isArr := x.X.Type().Underlying().(*types.Pointer); isArr {
 			w.load(x.X, a)
@@ -447,8 +457,10 @@ func (w *c18Walk) freeVar(fv *ssa.FreeVar) {
 		if mc, ok := in.(*ssa.MakeClosure); ok && mc.Fn == ssa.Value(fn) && idx < len(mc.Bindings) {
 			found = true
 			b := mc.Bindings[idx]
-			// go/ssa captures by reference: the binding is the address of the parent's variable
-			w.load(b, c18Anchor{outside: true})
+			// go/ssa captures by reference: the binding is the address of the parent's variable. The memory is made by
+			// an instruction of the enclosing function: its Root is that instruction (rules that ask "made per call /
+			// per iteration" compare the Root's function with the literal's).
+			w.load(b, c18Anchor{})
 		}
 	}
 	if !found {
@@ -460,6 +472,8 @@ func (w *c18Walk) param(p *ssa.Parameter, a c18Anchor) {
 	fn := p.Parent()
 	if c18IsRecv(p) {
 		w.add(C18State, "receiver of "+FuncName(fn), nil, p.Pos(), a)
+		w.out[len(w.out)-1].Self = true
+		w.out[len(w.out)-1].selfT = p.Type()
 		return
 	}
 	idx := -1
@@ -512,7 +526,7 @@ func (w *c18Walk) param(p *ssa.Parameter, a c18Anchor) {
 	}
 	exported := fn.Object() != nil && fn.Object().Exported()
 	cs := w.e.callers[Orig(fn)]
-	if exported || len(cs) == 0 || w.e.taken[Orig(fn)] || fn.Pkg == nil || !w.e.inScope[fn.Pkg] {
+	if exported || len(cs) == 0 || w.e.taken[Orig(fn)] || Orig(fn).Pkg == nil || !w.e.inScope[Orig(fn).Pkg] {
 		w.add(C18Param, name, nil, p.Pos(), a)
 		return
 	}
@@ -547,7 +561,8 @@ func (w *c18Walk) call(call *ssa.Call, idx int, a c18Anchor) {
 			callee, _ = mc.Fn.(*ssa.Function)
 		}
 	}
-	if callee != nil && callee.Blocks != nil && callee.Pkg != nil && w.e.inScope[callee.Pkg] {
+	// instances of generic functions have no package of their own: scope is decided by their origin
+	if callee != nil && callee.Blocks != nil && Orig(callee).Pkg != nil && w.e.inScope[Orig(callee).Pkg] {
 		key := fmt.Sprintf("%p#%d", call, idx)
 		if w.seenR[key] {
 			return
@@ -577,7 +592,7 @@ func (w *c18Walk) call(call *ssa.Call, idx int, a c18Anchor) {
 		}
 	}
 	args = append(args, cc.Args...)
-	sub := &c18Walk{e: w.e, shallow: w.shallow, seen: map[ssa.Value]bool{}, seenA: map[*ssa.Alloc]bool{}, seenR: w.seenR}
+	sub := &c18Walk{e: w.e, shallow: w.shallow, seen: map[ssa.Value]bool{}, seenA: map[*ssa.Alloc]bool{}, seenR: w.seenR, inFA: w.inFA}
 	for _, arg := range args {
 		sub.val(arg, a)
 	}
@@ -604,7 +619,35 @@ func (w *c18Walk) recv(ch ssa.Value, a c18Anchor) {
 		keys[k] = true
 	} else if mk, ok := ch.(*ssa.MakeChan); ok {
 		var follow func(v ssa.Value)
+		seenVar := map[ssa.Value]bool{}
+		// the channel kept in a local variable (possibly captured by a function literal): every read of the variable
+		var followVar func(ptr ssa.Value)
+		followVar = func(ptr ssa.Value) {
+			if seenVar[ptr] || ptr.Referrers() == nil {
+				return
+			}
+			seenVar[ptr] = true
+			for _, r := range *ptr.Referrers() {
+				switch y := r.(type) {
+				case *ssa.UnOp:
+					if y.Op == token.MUL {
+						follow(y)
+					}
+				case *ssa.MakeClosure:
+					if fn, ok := y.Fn.(*ssa.Function); ok {
+						for i, b := range y.Bindings {
+							if b == ptr && i < len(fn.FreeVars) {
+								followVar(fn.FreeVars[i])
+							}
+						}
+					}
+				}
+			}
+		}
 		follow = func(v ssa.Value) {
+			if v.Referrers() == nil {
+				return
+			}
 			for _, r := range *v.Referrers() {
 				switch x := r.(type) {
 				case *ssa.ChangeType:
@@ -613,6 +656,8 @@ func (w *c18Walk) recv(ch ssa.Value, a c18Anchor) {
 					if x.Val == v {
 						if fa, ok := x.Addr.(*ssa.FieldAddr); ok {
 							keys[FieldKey(fa.X.Type(), fa.Field)] = true
+						} else if al, ok := x.Addr.(*ssa.Alloc); ok {
+							followVar(al)
 						}
 					}
 				case *ssa.Send:
@@ -679,4 +724,128 @@ func C18Summary(os []C18Origin) (state, param, unknown *C18Origin) {
 		}
 	}
 	return
+}
+
+// selectFrom resolves the memory designated by (or, with load, read through) base.field: when base can be the
+// component pointer itself the selection is that field of the component's state; every other origin of base
+// carries over (the field of a local struct is part of that local, the field of state memory is state memory).
+func (w *c18Walk) selectFrom(sel ssa.Value, base ssa.Value, field int, a c18Anchor, load bool) {
+	if w.inFA == nil {
+		w.inFA = map[ssa.Value]bool{}
+	}
+	if w.inFA[sel] {
+		return
+	}
+	w.inFA[sel] = true
+	defer delete(w.inFA, sel)
+	sub := &c18Walk{e: w.e, shallow: w.shallow, seen: map[ssa.Value]bool{}, seenA: map[*ssa.Alloc]bool{}, seenR: map[string]bool{}, inFA: w.inFA}
+	for k, v := range w.seenR {
+		sub.seenR[k] = v
+	}
+	if load {
+		sub.load(base, a)
+	} else {
+		sub.ptr(base, a)
+	}
+	for _, o := range sub.out {
+		if o.Self && o.selfT != nil && types.Identical(c18Deref(o.selfT), c18Deref(base.Type())) {
+			var at ssa.Instruction
+			if in, ok := sel.(ssa.Instruction); ok {
+				at = in
+			}
+			w.add(C18State, FieldKey(base.Type(), field), at, sel.Pos(), a)
+			continue
+		}
+		w.out = append(w.out, o)
+	}
+}
+
+func c18Deref(t types.Type) types.Type {
+	if p, ok := t.Underlying().(*types.Pointer); ok {
+		return p.Elem()
+	}
+	return t
+}
+
+// c18PlainLocal: the address of the local never leaves the function (it is only loaded, stored to, or
+// selected from), so that a load sees exactly the stores that reach it on the CFG.
+func c18PlainLocal(al *ssa.Alloc) bool {
+	var ok func(ptr ssa.Value, d int) bool
+	ok = func(ptr ssa.Value, d int) bool {
+		if d > 4 || ptr.Referrers() == nil {
+			return false
+		}
+		for _, r := range *ptr.Referrers() {
+			switch x := r.(type) {
+			case *ssa.DebugRef:
+			case *ssa.UnOp:
+				if x.Op != token.MUL {
+					return false
+				}
+			case *ssa.Store:
+				if x.Addr != ptr {
+					return false // the address itself is stored somewhere
+				}
+			case *ssa.FieldAddr:
+				if x.X != ptr || !ok(x, d+1) {
+					return false
+				}
+			case *ssa.IndexAddr:
+				if x.X != ptr || !ok(x, d+1) {
+					return false
+				}
+			default:
+				return false
+			}
+		}
+		return true
+	}
+	return ok(al, 0)
+}
+
+// reaching: origins of a load of a plain local: the whole-variable stores that reach the load on the CFG
+// (a later assignment kills an earlier one) plus every partial store (fields / elements, weak updates).
+func (w *c18Walk) reaching(al *ssa.Alloc, ld *ssa.UnOp, a c18Anchor) {
+	var full []*ssa.Store
+	for _, r := range *al.Referrers() {
+		switch x := r.(type) {
+		case *ssa.Store:
+			full = append(full, x)
+		case *ssa.FieldAddr:
+			w.stores(x, a)
+		case *ssa.IndexAddr:
+			w.stores(x, a)
+		}
+	}
+	if len(full) == 0 {
+		return
+	}
+	isFull := map[ssa.Instruction]*ssa.Store{}
+	for _, st := range full {
+		isFull[st] = st
+	}
+	seen := map[*ssa.BasicBlock]bool{}
+	var scan func(b *ssa.BasicBlock, from int)
+	scan = func(b *ssa.BasicBlock, from int) {
+		for i := from; i >= 0; i-- {
+			if st := isFull[b.Instrs[i]]; st != nil {
+				w.val(st.Val, a)
+				return
+			}
+		}
+		for _, p := range b.Preds {
+			if !seen[p] {
+				seen[p] = true
+				scan(p, len(p.Instrs)-1)
+			}
+		}
+	}
+	b := ld.Block()
+	at := 0
+	for i, in := range b.Instrs {
+		if in == ssa.Instruction(ld) {
+			at = i
+		}
+	}
+	scan(b, at-1)
 }
